@@ -8,6 +8,7 @@ import (
 	"sort"
 	"strings"
 	"sync"
+	"time"
 
 	corestore "cosmossdk.io/core/store"
 	dbm "github.com/cosmos/iavl/db"
@@ -562,13 +563,141 @@ func runBatchAtomicity(c *fw.Ctx, rng *rand.Rand) {
 	c.Obs("atomicity_runs", 1)
 }
 
+// runOpenIteratorWrites: an iterator over a long range is open (one key read) while a second
+// goroutine issues direct point writes (Delete / Set) of keys OUTSIDE the iterated domain - which the
+// iterator contract permits. A backend may make the writer wait until the iterator is closed (MemDB)
+// or serve the iterator from a snapshot (GoLevelDB); either way the iterator must yield exactly the
+// stored keys of its domain, none of which was touched. The writer's progress is not part of the
+// verdict (the short pause only gives an admitted writer time to run); afterwards the writes must
+// have been applied.
+func runOpenIteratorWrites(c *fw.Ctx, rng *rand.Rand) {
+	backends, err := makeBackends(rng, c.TmpDir)
+	if err != nil {
+		c.Res.Inconcl = err.Error()
+		return
+	}
+	defer func() {
+		for _, b := range backends {
+			if b.cleanup != nil {
+				b.cleanup()
+			}
+		}
+	}()
+	key := func(i int) []byte { return []byte(fmt.Sprintf("k%04d", i)) }
+	for _, b := range backends {
+		const n = 1000
+		bt := b.db.NewBatch()
+		for i := 0; i < n; i++ { // ascending fill: every B-tree leaf holds the minimum number of items
+			bt.Set(key(i), []byte("v"))
+		}
+		if err := bt.Write(); err != nil {
+			c.Violate(0, "kv|"+b.name+"|batch-write-error", "%v", err)
+			return
+		}
+		bt.Close()
+		lo, hi := 100+rng.Intn(50), 300+rng.Intn(400)
+		rev := rng.Intn(2) == 0
+		var it corestore.Iterator
+		if rev {
+			it, err = b.db.ReverseIterator(key(lo), key(hi))
+		} else {
+			it, err = b.db.Iterator(key(lo), key(hi))
+		}
+		if err != nil {
+			c.Violate(0, "kv|"+b.name+"|iterator-error", "%v", err)
+			return
+		}
+		var got []string
+		if it.Valid() {
+			got = append(got, string(it.Key()))
+			it.Next()
+		}
+		// point writes outside [lo, hi): deletions at the low end (they make a B-tree rebalance on
+		// the path an ascending traversal still has to return through), at the high end, and new keys
+		victims := []int{0, 1, 2, 3, 40, 41, n - 1, n - 2, hi + 5}
+		done := make(chan error, 1)
+		go func() {
+			var werr error
+			for _, v := range victims {
+				if e := b.db.Delete(key(v)); e != nil && werr == nil {
+					werr = e
+				}
+			}
+			if e := b.db.Set([]byte("k0000x"), []byte("new")); e != nil && werr == nil {
+				werr = e
+			}
+			done <- werr
+		}()
+		finished := false
+		select {
+		case werr := <-done:
+			finished = true
+			if werr != nil {
+				c.Violate(0, "kv|"+b.name+"|open-iterator|write-error", "a point write outside the domain of an open iterator failed: %v", werr)
+			}
+			c.Obs("open_iterator_writers_admitted_while_the_iterator_was_open", 1)
+		case <-time.After(50 * time.Millisecond):
+			c.Obs("open_iterator_writers_made_to_wait", 1)
+		}
+		for ; it.Valid(); it.Next() {
+			got = append(got, string(it.Key()))
+		}
+		ierr := it.Error()
+		it.Close()
+		if !finished {
+			select {
+			case werr := <-done:
+				if werr != nil {
+					c.Violate(0, "kv|"+b.name+"|open-iterator|write-error", "a point write outside the domain of an open iterator failed: %v", werr)
+				}
+			case <-time.After(60 * time.Second):
+				c.Res.Inconcl = "the writer that waited for an open iterator did not finish within 60 s after the iterator was closed (" + b.name + ")"
+				return
+			}
+		}
+		var want []string
+		for i := lo; i < hi; i++ {
+			want = append(want, string(key(i)))
+		}
+		if rev {
+			for i, j := 0, len(want)-1; i < j; i, j = i+1, j-1 {
+				want[i], want[j] = want[j], want[i]
+			}
+		}
+		if ierr != nil || len(got) != len(want) {
+			c.Violate(0, "kv|"+b.name+"|open-iterator|wrong-keys", "%s: iterator over [%s,%s) reverse=%v, open while point writes outside its domain were issued from a second goroutine, yielded %d keys (Error()=%v), want %d (none of them was written to)", b.name, key(lo), key(hi), rev, len(got), ierr, len(want))
+		} else {
+			for i := range want {
+				if got[i] != want[i] {
+					c.Violate(0, "kv|"+b.name+"|open-iterator|wrong-keys", "%s: iterator over [%s,%s) reverse=%v, open while point writes outside its domain were issued from a second goroutine: key #%d is %s, want %s", b.name, key(lo), key(hi), rev, i, got[i], want[i])
+					break
+				}
+			}
+		}
+		// the writes took effect
+		for _, v := range victims {
+			if has, _ := b.db.Has(key(v)); has {
+				c.Violate(0, "kv|"+b.name+"|open-iterator|write-lost", "%s: Delete(%s) issued while an iterator was open has no effect afterwards", b.name, key(v))
+				break
+			}
+		}
+		if v, _ := b.db.Get([]byte("k0000x")); string(v) != "new" {
+			c.Violate(0, "kv|"+b.name+"|open-iterator|write-lost", "%s: Set issued while an iterator was open has no effect afterwards", b.name)
+		}
+		c.Obs("open_iterator_write_probes", 1)
+		if len(c.Res.Violations) > 0 {
+			return
+		}
+	}
+}
+
 func init() {
 	fw.Register(&fw.Check{
 		ID:    "C18",
 		Level: "exploration",
 		Cases: func(tier string) int { return tierN(tier, 480, 16000) },
 		Rule: "case = 6 (quick) / 10 (thorough) random programs of 40-120 operations each: Get / Has / Set / Delete / rejected writes (empty or nil key, nil value, empty non-nil iterator bounds) / Iterator and ReverseIterator over bounds equal to, between and outside stored keys, nil, inverted / batch life cycle (Set, Delete, invisibility before Write, Write or WriteSync, reuse after write, close without write) over keys of length 1-4 from the alphabet {00,01,61,FE,FF}; every program runs on MemDB, GoLevelDB, PrefixDB(MemDB), PrefixDB(GoLevelDB) and PrefixDB(PrefixDB(MemDB)) with prefixes from {FF, FFFF, 01FF, 61, 00, 6100FF, FEFFFF} (prefix slices with spare capacity) while the parent store also holds sentinel keys just below, at and just above the prefix range (incl. the carry case of prefixes ending in FF). " +
-			"Oracle: a sorted-map model - every point read, every iteration (exact keys, order, values) and the final contents must agree on every backend; parent stores of prefixed views must hold exactly prefix+model keys plus the untouched sentinels. 1 case in 16 additionally runs a concurrent snapshot-iterator reader against 300 three-key batch writes per backend (a half-applied batch is a violation). " +
+			"Oracle: a sorted-map model - every point read, every iteration (exact keys, order, values) and the final contents must agree on every backend; parent stores of prefixed views must hold exactly prefix+model keys plus the untouched sentinels. 1 case in 16 additionally runs a concurrent snapshot-iterator reader against 300 three-key batch writes per backend (a half-applied batch is a violation); another case in 17 fills every backend with 1000 keys, opens a forward or reverse iterator over a range of 150-600 keys, reads one key and lets a second goroutine issue point Deletes and a Set of keys OUTSIDE that range (the backend may make the writer wait or serve a snapshot): the iterator must yield exactly the keys of its range, and the writes must have taken effect afterwards. " +
 			"distinct = case index (programs are PRNG-determined); non-trivial = the program contained >=1 written batch, >=1 iterator with a non-nil bound and >=1 delete.",
 		Assumptions: []string{"sorted-map model; Key()/Next() are not called on invalid iterators; Has(empty key) may return false or an error"},
 		Run: func(c *fw.Ctx) {
@@ -582,11 +711,14 @@ func init() {
 			if c.Index%17 == 5 && len(c.Res.Violations) == 0 {
 				runBatchAtomicity(c, c.Rng)
 			}
+			if c.Index%17 == 11 && len(c.Res.Violations) == 0 {
+				runOpenIteratorWrites(c, c.Rng)
+			}
 			c.Res.Digest = fw.DigestOf("c18", c.Index)
 			c.Res.Nontrivial = c.Res.Obs["batches_written"] > 0 && c.Res.Obs["iterations"] > 0
 		},
 		Floor: func(obs map[string]int, evals, nontrivial int) string {
-			if obs["programs"] < 1000 || obs["iterations"] < 10000 || obs["batches_written"] < 500 || obs["prefix_isolation_checks"] < 1000 || obs["atomicity_runs"] < 5 || obs["iterations_inverted_or_equal"] < 100 {
+			if obs["programs"] < 1000 || obs["iterations"] < 10000 || obs["batches_written"] < 500 || obs["prefix_isolation_checks"] < 1000 || obs["atomicity_runs"] < 5 || obs["open_iterator_write_probes"] < 20 || obs["iterations_inverted_or_equal"] < 100 {
 				return fmt.Sprintf("too few observations: %v", obs)
 			}
 			return ""
